@@ -241,7 +241,15 @@ pub(crate) mod b {
         let mut out = String::new();
         let mut rest = s;
         while let Some(c) = rest.chars().next() {
-            if c == '<' {
+            // a CDATA section is character data too: literal up to its terminator
+            if let Some(r) = rest.strip_prefix("<![CDATA[") {
+                let end = r.find("]]>")?;
+                out.push_str(&r[..end]);
+                rest = &r[end + 3..];
+                continue;
+            }
+            // raw markup, or the CDATA terminator outside of a section (not allowed in character data)
+            if c == '<' || rest.starts_with("]]>") {
                 return None;
             }
             if c == '&' {
@@ -258,8 +266,9 @@ pub(crate) mod b {
     }
 
     /// C02 / C08 style sink: whatever the legend declarations and the settings strings contain, the
-    /// text of the style element has no raw '<', every '&' starts one of the five entities, every
-    /// character is an XML character, and un-escaping it gives back the css that was put in.
+    /// text of the style element is XML character data (no raw '<' and no ']]>' outside a CDATA section,
+    /// every '&' starts one of the five entities, every character is an XML character), and decoding it
+    /// the way an XML parser does gives back the css that was put in.
     #[test]
     fn bounded_style_sink() {
         let alphabet = ['<', '&', '>', ']', 'a', ';', '\n', '\u{1}', '\u{fffe}', '"', '\''];
@@ -282,7 +291,6 @@ pub(crate) mod b {
                         Some(t) => {
                             let un = unescape(t);
                             t.chars().all(crate::__verif::h::xml_char)
-                                && !t.contains("]]>")   // not allowed in XML character data
                                 && match un {
                                     // everything XML can represent survives the round trip
                                     Some(u) => {
@@ -355,8 +363,9 @@ pub(crate) mod b {
     #[test]
     fn bounded_escape_line() {
         // '一' is always followed by its NUL filler, as StringBuffer lays it out
-        let tokens: [&[char]; 6] = [&['"'], &['a'], &['|'], &[' '], &['é'], &['一', '\0']];
-        let max = if thorough() { 8 } else { 6 };
+        // a combining mark (display width 0) and a tab (no display width) occupy one cell each
+        let tokens: [&[char]; 8] = [&['"'], &['a'], &['|'], &[' '], &['é'], &['一', '\0'], &['\u{301}'], &['\t']];
+        let max = if thorough() { 7 } else { 6 };
         let mut rows: Vec<Vec<char>> = vec![vec![]];
         let mut frontier: Vec<Vec<char>> = vec![vec![]];
         for _ in 0..max {
